@@ -37,17 +37,14 @@ def check_one(s, skip=()):
     line, soup, exc = common.impl_parse(s, 0, skip)
     if soup is None:
         return None                      # does not parse in strict mode: out of scope
-    if oracles.has_bare_args(soup) or oracles.hidden_bare(s):
+    if oracles.has_bare_args(soup) or oracles.hidden_bare(s) or oracles.name_not_in_source(s, soup):
         return None                      # side condition on fixed-signature commands
     out = str(soup)
     if oracles.aligned(s, out):
         return 'ok'
-    # attribute to the recorded finding F4b iff neutralising the F4b pattern repairs it
-    s2 = oracles.f4b_repair(s)
-    if s2 != s:
-        l2, soup2, _ = common.impl_parse(s2, 0, skip)
-        if soup2 is not None and (oracles.has_bare_args(soup2) or oracles.aligned(s2, str(soup2))):
-            return ('env-name-f4b', 'environment name with blanks/brackets: %r -> %r' % (s[:60], out[:60]))
+    # a failure on an input of the F4b class is the recorded finding; anything else is new
+    if oracles.f4b_class(s):
+        return ('env-name-f4b', 'environment name with blanks/brackets: %r -> %r' % (s[:60], out[:60]))
     return ('conservation', '%r -> %r' % (s[:80], out[:80]))
 
 
